@@ -16,11 +16,17 @@ import (
 func buildProbe() (string, error) {
 	dir := filepath.Join(scratch(), "wprobe")
 	os.MkdirAll(dir, 0o755)
-	src, err := os.ReadFile(filepath.Join(verifDir, "helpers/wprobe/main.go"))
-	if err != nil {
-		return "", err
+	srcs, _ := filepath.Glob(filepath.Join(verifDir, "helpers/wprobe/*.go"))
+	if len(srcs) == 0 {
+		return "", fmt.Errorf("helpers/wprobe: no sources")
 	}
-	os.WriteFile(filepath.Join(dir, "main.go"), src, 0o644)
+	for _, f := range srcs {
+		src, err := os.ReadFile(f)
+		if err != nil {
+			return "", err
+		}
+		os.WriteFile(filepath.Join(dir, filepath.Base(f)), src, 0o644)
+	}
 	gomod := "module wprobe\ngo 1.23\nrequire github.com/google/wuffs v0.0.0\nreplace github.com/google/wuffs => " + repoDir + "\n"
 	os.WriteFile(filepath.Join(dir, "go.mod"), []byte(gomod), 0o644)
 	if b, err := os.ReadFile(filepath.Join(repoDir, "go.sum")); err == nil {
